@@ -13,7 +13,9 @@ import (
 
 	"github.com/ipld/go-ipld-prime"
 	"github.com/ipld/go-ipld-prime/datamodel"
+	"github.com/ipld/go-ipld-prime/node/basicnode"
 
+	"github.com/ucan-wg/go-ucan/pkg/policy"
 	"github.com/ucan-wg/go-ucan/pkg/policy/selector"
 )
 
@@ -84,6 +86,130 @@ func selText(segs []segRec) string {
 		}
 	}
 	return t
+}
+
+// selTextsWithIdentity: the same selector written with explicit identity segments where the grammar has room for
+// one - a dot between a field and a following bracket segment (.a.["b"], .l.[1], .a.[]) and a trailing dot after a
+// final field (.a.).  An identity segment does nothing, wherever it stands.
+func selTextsWithIdentity(segs []segRec) []string {
+	var out []string
+	var b strings.Builder
+	n, last := 0, ""
+	for _, s := range segs {
+		if s.T == "identity" {
+			continue
+		}
+		t := s.text()
+		if n > 0 && strings.HasPrefix(t, "[") && !strings.HasPrefix(last, "[") {
+			b.WriteString(".")
+		}
+		b.WriteString(t)
+		n, last = n+1, t
+	}
+	t := b.String()
+	if !strings.HasPrefix(t, ".") {
+		t = "." + t
+	}
+	if t != selText(segs) {
+		out = append(out, t)
+	}
+	if n > 0 && !strings.HasPrefix(last, "[") && !strings.HasSuffix(last, "?") {
+		out = append(out, selText(segs)+".")
+	}
+	return out
+}
+
+type selAPIResult struct {
+	api string
+	err error
+	sel string // the selector text the built / read policy writes back
+}
+
+// selectorTextAPIs hands one selector text to every policy API that takes one.
+func selectorTextAPIs(text string) []selAPIResult {
+	one := basicnode.NewInt(1)
+	inner := policy.Equal(".", one)
+	ctors := []struct {
+		api  string
+		c    policy.Constructor
+		path []int // where the selector sits in the wire form of the statement
+	}{
+		{"policy.Equal", policy.Equal(text, one), []int{1}},
+		{"policy.GreaterThan", policy.GreaterThan(text, one), []int{1}},
+		{"policy.LessThanOrEqual", policy.LessThanOrEqual(text, one), []int{1}},
+		{"policy.Like", policy.Like(text, "a*"), []int{1}},
+		{"policy.All", policy.All(text, inner), []int{1}},
+		{"policy.Any", policy.Any(text, inner), []int{1}},
+		{"policy.Not(Equal)", policy.Not(policy.Equal(text, one)), []int{1, 1}},
+		{"policy.And(Equal)", policy.And(policy.Equal(".", one), policy.Equal(text, one)), []int{1, 1, 1}},
+		{"policy.Or(Any)", policy.Or(policy.Any(text, inner)), []int{1, 0, 1}},
+		{"policy.All(Any)", policy.All(".", policy.Any(text, inner)), []int{2, 1}},
+	}
+	var out []selAPIResult
+	selAt := func(p policy.Policy, path []int) (string, error) {
+		n, err := p.ToIPLD()
+		if err != nil {
+			return "", err
+		}
+		cur, err := n.LookupByIndex(0)
+		for _, i := range path {
+			if err != nil {
+				return "", err
+			}
+			cur, err = cur.LookupByIndex(int64(i))
+		}
+		if err != nil {
+			return "", err
+		}
+		return cur.AsString()
+	}
+	for _, c := range ctors {
+		r := selAPIResult{api: c.api}
+		func() {
+			defer func() {
+				if x := recover(); x != nil {
+					r.err = fmt.Errorf("panic: %v", x)
+				}
+			}()
+			p, err := policy.Construct(c.c)
+			if err != nil {
+				r.err = err
+				return
+			}
+			r.sel, r.err = selAt(p, c.path)
+			if r.err != nil {
+				r.err = fmt.Errorf("built, but cannot be written: %w", r.err)
+			}
+		}()
+		out = append(out, r)
+	}
+	// the readers: the same statement offered as DAG-JSON text
+	q, _ := json.Marshal(text)
+	for _, w := range []struct {
+		api, js string
+		path    []int
+	}{
+		{"policy.FromDagJson(==)", `[["==", ` + string(q) + `, 1]]`, []int{1}},
+		{"policy.FromDagJson(all)", `[["all", ` + string(q) + `, ["==", ".", 1]]]`, []int{1}},
+		{"policy.FromDagJson(not like)", `[["not", ["like", ` + string(q) + `, "a*"]]]`, []int{1, 1}},
+	} {
+		r := selAPIResult{api: w.api}
+		func() {
+			defer func() {
+				if x := recover(); x != nil {
+					r.err = fmt.Errorf("panic: %v", x)
+				}
+			}()
+			p, err := policy.FromDagJson(w.js)
+			if err != nil {
+				r.err = err
+				return
+			}
+			r.sel, r.err = selAt(p, w.path)
+		}()
+		out = append(out, r)
+	}
+	return out
 }
 
 // outcome is the property-level observable of a resolution.
@@ -384,6 +510,17 @@ func init() {
 				rep.violation(json.RawMessage(raw), c.Expect, full.json(), "Select("+text+")")
 				continue
 			}
+			for _, itext := range selTextsWithIdentity(c.Sel) {
+				isel, err := parseReal(itext)
+				if err != nil {
+					rep.drift(json.RawMessage(raw), "parses", err.Error(), "selector.Parse("+itext+"): explicit identity segment not accepted")
+					continue
+				}
+				if got := selectReal(isel, node); !sameOutcome(got, full) {
+					rep.violation(json.RawMessage(raw), full.json(), got.json(), fmt.Sprintf("an identity segment changed the result: %s differs from %s", itext, text))
+					break
+				}
+			}
 			// prefix replay: the real result of each prefix is the model's cur after that many steps,
 			// and resolving the remaining segments from the real intermediate gives the real full result
 			for k := 1; k < len(c.Sel) && k <= len(c.Hist); k++ {
@@ -458,6 +595,19 @@ func init() {
 				if !sameViews(views, viewOf(again), true) {
 					rep.violation(json.RawMessage(raw), views, viewOf(again), "print then parse changes the meaning of "+strconv.Quote(text))
 					continue
+				}
+			}
+			// every API that takes selector text treats it as selector.Parse does: the policy constructors and the
+			// policy readers accept exactly the texts the parser accepts, and keep the selector it gives
+			for _, v := range selectorTextAPIs(text) {
+				if (v.err == nil) != accepted {
+					rep.violation(json.RawMessage(raw), fmt.Sprintf("selector.Parse accepts: %v", accepted), fmt.Sprintf("%s: %v", v.api, v.err),
+						"an API that takes selector text disagrees with selector.Parse on "+strconv.Quote(text))
+					break
+				}
+				if accepted && v.sel != sel.String() {
+					rep.violation(json.RawMessage(raw), sel.String(), v.sel, v.api+" keeps another selector than selector.Parse gives for "+strconv.Quote(text))
+					break
 				}
 			}
 			// agreement with the code-shaped parser model: drift only
